@@ -12,7 +12,7 @@ DESIGN_REF = '3.2'
 CHUNK = 250
 RULE = ('(a) threads: 2-4 sim threads over 1-2 FileLock objects on one path (real kernel flock on tmpfs, real Lock/RLock objects, virtual '
         'clock), each doing 1-3 rounds through acquire() / acquire_ctx() / with, blocking / blocking=False / timed at the call site, '
-        'constructor time-out in {-1, 0, 0.25}, reentrant nesting depth 1-3, hold times on a grid around the time-outs; pre-emption at '
+        'constructor time-out in {-1, 0, 0.25}, reentrant nesting depth 1-3, hold times on a grid around the time-outs (incl. a holder that releases at exactly the instant a waiter\'s deadline expires), innermost blocks that raise and are handled inside the outer section; pre-emption at '
         'every line of aiuti/filelock.py and inside the critical section. A thread enters the harness-owned critical section only if its '
         'acquire reported success; invariant: at most one thread inside per lock file at every step (reentrant nesting counts once), '
         'is_locked true inside, no deadlock, nothing left locked. (b) processes: see the process batches (stepped children over pipes). '
